@@ -89,6 +89,16 @@ Definition state_matches (N : nat) (s : state) (o : obs) : bool :=
   && list_eqb (list_eqb Bool.eqb) (map (fun i => map (hist s i) (seq 1 N)) (seq 1 N)) (o_hist o)
   && list_eqb npc_eqb (map (pc s) (seq 1 N)) (o_pc o).
 
+(* as in Shopcart.v: the checker re-tabulates the (functional) state after every step on nodes 0..N to avoid
+   re-evaluating nested closures; `freeze` is the identity on that range and is used only here *)
+Definition tab1 {A} (d : A) (n : nat) (f : nat -> A) : nat -> A :=
+  let l := map f (seq 0 n) in fun i => nth i l d.
+Definition freeze (N : nat) (s : state) : state :=
+  let nn := S N in
+  mkState (tab1 (fun _ => 0) nn (fun i => tab1 0 nn (cnt s i)))
+          (tab1 (fun _ => false) nn (fun i => tab1 false nn (hist s i)))
+          (tab1 Update nn (pc s)).
+
 Definition srec := (event * (nat * option obs))%type.
 
 Fixpoint first_mismatch (N : nat) (s : state) (i : nat) (steps : list srec) : option nat :=
@@ -96,7 +106,7 @@ Fixpoint first_mismatch (N : nat) (s : state) (i : nat) (steps : list srec) : op
   | [] => None
   | (e, (code, oo)) :: rest =>
       let out := step N s e in
-      let s' := match out with Ok s' => s' | _ => s end in
+      let s' := match out with Ok s' => freeze N s' | _ => s end in
       if Nat.eqb (out_code out) code &&
          match oo with
          | Some o => state_matches N s' o
